@@ -19,12 +19,23 @@ class fs_provider : public ifs_provider
 public:
     std::string read_file(const std::filesystem::path& path) override
     {
+        std::error_code ec;
+        if(std::filesystem::is_directory(path, ec))
+        {
+            // a directory can be opened but its "size" is meaningless
+            throw_error("can't read file: `{}` is a directory", path);
+        }
+
         std::ifstream is{path, std::ios::in | std::ios::binary | std::ios::ate};
         if(is)
         {
             const auto file_size = is.tellg();
+            if(file_size < 0)
+            {
+                throw_error("can't read file: `{}`", path);
+            }
             std::string data;
-            data.resize(file_size);
+            data.resize(static_cast<std::size_t>(file_size));
             is.seekg(0);
             if(is.read(data.data(), file_size))
             {
